@@ -1,6 +1,9 @@
 package generator
 
 import (
+	"crypto/sha256"
+	"encoding/hex"
+	"hash"
 	"io"
 	"strconv"
 	"strings"
@@ -11,8 +14,9 @@ import (
 
 func NewRangeWriter(w io.Writer) *RangeWriter {
 	return &RangeWriter{
-		w:       w,
-		builder: &strings.Builder{},
+		w:        w,
+		builder:  &strings.Builder{},
+		codeHash: sha256.New(),
 	}
 }
 
@@ -25,6 +29,32 @@ type RangeWriter struct {
 	index    int
 	builder  *strings.Builder
 	Literals []string
+
+	// codeHash is a running hash of all generated Go code, except for the parts that can
+	// change without requiring a recompilation in watch mode: the contents of the string
+	// literals (read from the text file at runtime) and anything written via WriteUnhashed.
+	codeHash hash.Hash
+	unhashed bool
+}
+
+// CodeHash returns a hash of the generated Go code, excluding the contents of string literals.
+// If the hash of two generations of the same file differs, the file must be recompiled for a
+// running watch mode program to render the updated template.
+func (rw *RangeWriter) CodeHash() string {
+	return hex.EncodeToString(rw.codeHash.Sum(nil))
+}
+
+// WriteUnhashed writes s without including it in the code hash. It's used for generated code
+// that has no effect on the rendered output, e.g. source positions in error messages.
+func (rw *RangeWriter) WriteUnhashed(s string) (r parser.Range, err error) {
+	if rw.inLiteral {
+		if _, err = rw.closeLiteral(0); err != nil {
+			return
+		}
+	}
+	rw.unhashed = true
+	defer func() { rw.unhashed = false }()
+	return rw.write(s)
 }
 
 func (rw *RangeWriter) closeLiteral(indent int) (r parser.Range, err error) {
@@ -36,14 +66,22 @@ func (rw *RangeWriter) closeLiteral(indent int) (r parser.Range, err error) {
 	sb.WriteString(`templ_7745c5c3_Err = templruntime.WriteString(templ_7745c5c3_Buffer, `)
 	sb.WriteString(strconv.Itoa(rw.index))
 	sb.WriteString(`, "`)
+	if _, err := rw.write(sb.String()); err != nil {
+		return r, err
+	}
+
+	// The contents of the literal are not part of the code hash.
 	literal := rw.builder.String()
 	rw.Literals = append(rw.Literals, literal)
-	sb.WriteString(literal)
 	rw.builder.Reset()
-	sb.WriteString(`")`)
-	sb.WriteString("\n")
+	rw.unhashed = true
+	_, err = rw.write(literal)
+	rw.unhashed = false
+	if err != nil {
+		return r, err
+	}
 
-	if _, err := rw.write(sb.String()); err != nil {
+	if _, err := rw.write(`")` + "\n"); err != nil {
 		return r, err
 	}
 
@@ -84,6 +122,9 @@ func (rw *RangeWriter) write(s string) (r parser.Range, err error) {
 		Index: rw.Current.Index,
 		Line:  rw.Current.Line,
 		Col:   rw.Current.Col,
+	}
+	if !rw.unhashed && rw.codeHash != nil {
+		_, _ = io.WriteString(rw.codeHash, s)
 	}
 	utf8Bytes := make([]byte, 4)
 	for _, c := range s {
